@@ -313,9 +313,11 @@ def suites_for(pid, rng, tier):
         for c in cfgs:
             S.append((name, c, "scan", gen.gen_fixed(rng, c, combs, count, name[0] + c[0], **kw)))
 
-    def groups(name, cfgs, kinds, count=k):
+    def groups(name, cfgs, kinds, count=k, **kw):
         for c in cfgs:
-            S.append((name, c, "scan", gen.gen_groups(rng, count, name[0] + c[0], kinds=kinds)))
+            S.append((name, c, "scan", gen.gen_groups(rng, count, name[0] + c[0], kinds=kinds, **kw)))
+
+    kl = max(k // 10, 200)       # the *-long suites: few children or members with long lives, run to the very end
 
     def small(name, cfgs, comb, cont="array"):
         n, ml, mo = (2, 2, 3) if tier == "quick" else (2, 2, 4)
@@ -337,6 +339,8 @@ def suites_for(pid, rng, tier):
         fixed("wake", CFG3, SCAN4 + ["race", "race_ok", "chain"])
         fixed("wake-large", ("std", "alloc"), SCAN4, ks // 4, large=True)
         groups("wake-groups", ("std", "alloc"), FG + SG, ks)
+        fixed("wake-long", ("std", "alloc"), SCAN4 + ["race", "race_ok", "chain"], kl, long=True)
+        groups("wake-groups-long", ("std",), FG + SG, kl, long=True)
         S.append(("wake-wait", "std", "scan", gen.gen_wait(rng, ks // 2, "w")))
         for c in ("std", "alloc"):
             S.append(("wake-nest(monitor only)", c, "mon", gen.gen_nest(rng, ks // 2, "x" + c[0])))
@@ -346,6 +350,8 @@ def suites_for(pid, rng, tier):
         fixed("own", CFG3, SCAN4 + ["race", "race_ok", "chain"], panic=0.08)
         fixed("own-large", ("std",), SCAN4, ks // 4, panic=0.08, large=True)
         groups("own-groups", ("std", "alloc"), FG + SG, ks)
+        fixed("own-long", ("std", "alloc"), SCAN4 + ["race", "race_ok", "chain"], kl, long=True)
+        groups("own-groups-long", ("std",), FG + SG, kl, long=True)
         S.append(("own-wait", "std", "scan", gen.gen_wait(rng, ks // 2, "w", panic=0.08)))
         small("own", ("std",), "try_join")
         return "own", S
@@ -353,53 +359,66 @@ def suites_for(pid, rng, tier):
         fixed("disc", CFG3, SCAN4 + ["race", "race_ok", "chain"])
         fixed("disc-large", ("std",), SCAN4, ks // 4, large=True)
         groups("disc-groups", ("std", "alloc"), FG + SG, ks)
+        fixed("disc-long", ("std", "alloc"), SCAN4 + ["race", "race_ok", "chain"], kl, long=True)
+        groups("disc-groups-long", ("std",), FG + SG, kl, long=True)
         S.append(("disc-wait", "alloc", "scan", gen.gen_wait(rng, ks // 2, "w")))
         nest_sim("disc-nest-sim")
         return "polls-nv", S
     if pid == "C04":
         fixed("join", CFG3, ["join"])
+        fixed("join-long", ("std", "nostd"), ["join"], kl, long=True)
         small("join", ("std", "nostd"), "join")
         small("join-tuple", ("std",), "join", "tuple")
         return "returns", S
     if pid == "C05":
         fixed("tryjoin", CFG3, ["try_join"])
+        fixed("tryjoin-long", ("std", "nostd"), ["try_join"], kl, long=True)
         small("tryjoin", ("std", "nostd"), "try_join")
         small("tryjoin-tuple", ("std",), "try_join", "tuple")
         return "own", S
     if pid == "C06":
         fixed("race", CFG3, ["race"])
+        fixed("race-long", ("std", "nostd"), ["race"], kl, long=True)
         small("race", ("std",), "race")
         small("race-tuple", ("std",), "race", "tuple")
         return "own", S
     if pid == "C07":
         fixed("raceok", CFG3, ["race_ok"])
+        fixed("raceok-long", ("std", "alloc"), ["race_ok"], kl, long=True)
         small("raceok", ("std",), "race_ok")
         small("raceok-tuple", ("nostd",), "race_ok", "tuple")
         small("raceok-vec", ("alloc",), "race_ok", "vec")
         return "own", S
     if pid == "C08":
         fixed("merge", CFG3, ["merge"])
+        fixed("merge-long", CFG3, ["merge"], kl, long=True)
         small("merge", ("std", "nostd"), "merge")
         return "polls", S
     if pid == "C09":
         fixed("zip", CFG3, ["zip"])
+        fixed("zip-long", CFG3, ["zip"], kl, long=True)
         small("zip", ("std", "nostd"), "zip")
         return "own", S
     if pid == "C10":
         fixed("chain", CFG3, ["chain"])
+        fixed("chain-long", CFG3, ["chain"], kl, long=True)
         small("chain", ("std",), "chain")
         small("chain-tuple", ("nostd",), "chain", "tuple")
         return "polls", S
     if pid == "C11":
         groups("fgroup", ("std", "alloc"), FG, 2 * k)
+        groups("fgroup-long", ("std", "alloc"), FG, kl, long=True)
         return "own", S
     if pid == "C12":
         groups("sgroup", ("std", "alloc"), SG, 2 * k)
+        groups("sgroup-long", ("std", "alloc"), SG, kl, long=True)
         return "own", S
     if pid == "C16":
         fixed("selective", ("std",), SCAN4, 2 * k)
         fixed("selective-large", ("std",), SCAN4, ks // 3, large=True)
         groups("selective-groups", ("std",), FG + SG, k)
+        fixed("selective-long", ("std",), SCAN4, kl, long=True)
+        groups("selective-groups-long", ("std",), FG + SG, kl, long=True)
         small("selective-join", ("std",), "join")
         small("selective-merge", ("std",), "merge")
         nest_sim("selective-nest-sim", ("std",), skip=("nest_jr",))      # a race polls all its children in every poll: not a combinator C16 speaks about
@@ -418,6 +437,7 @@ def suites_for(pid, rng, tier):
         fixed("conc-mixed", ("std", "alloc"), SCAN4, ks)
         fixed("conc-large", ("std",), SCAN4, ks // 4, large=True)
         groups("conc-groups", ("std", "alloc"), FG + SG, ks)
+        fixed("conc-long", ("std", "alloc"), SCAN4, kl, long=True)
         S.append(("conc-nest(monitor only)", "std", "mon", gen.gen_nest(rng, ks // 2, "xs", combs=("nest_jj", "nest_jr", "nest_rj", "nest_jt", "nest_gj", "nest_mm", "nest_gm"))))   # chain and zip are outside C20's second sentence
         nest_sim("conc-nest-sim")
         return "polls-nv", S
